@@ -372,7 +372,28 @@ def playback_generate(dst, cfg, harness_name, timeout, src_rel=None):
     if cfg.get("features"):
         cmd[2:2] = ["--features", ",".join(cfg["features"])]
     rc, out = sh(cmd, cwd=dst, timeout=timeout)
-    blocks = re.findall(r"```\n(.*?)```", out, re.S)
+    # blocks are delimited by lines that are exactly ``` (doc comments inside a block may contain "/// ```" lines)
+    blocks, cur = [], None
+    for line in out.splitlines():
+        if line.strip() == "```" and not line.lstrip().startswith("///"):
+            if cur is None:
+                cur = []
+            else:
+                blocks.append("\n".join(cur) + "\n")
+                cur = None
+        elif cur is not None:
+            cur.append(line)
+    def _sanitize(b):
+        # a multi-line assertion message breaks Kani's generated doc comment: re-prefix stray lines before #[test]
+        outl, in_doc = [], True
+        for ln in b.splitlines():
+            if ln.strip().startswith("#[test]"):
+                in_doc = False
+            if in_doc and ln.strip() and not ln.lstrip().startswith("///"):
+                ln = "/// " + ln
+            outl.append(ln)
+        return "\n".join(outl) + "\n"
+    blocks = [_sanitize(b) for b in blocks]
     tests, code = [], []
     for b in blocks:
         m = re.search(r"fn (kani_concrete_playback_\w+)\(\)", b)
@@ -624,7 +645,7 @@ def do_check(pid, tier, seed, only=None, keep=False, jobs=None, no_replay=False)
             lines.append("VIOLATION property=%s replay=%s" % (pid, rd))
             for ent in unknown[:5]:
                 lines.append("  harness=%s check=%s :: %s @ %s (%s)" % (r["harness"], ent["property"],
-                                                                      ent["description"][:160], ent["where"], how))
+                                                                      " ".join(ent["description"].split())[:160], ent["where"], how))
         if reproduced:
             exit_code = 1
         elif inconclusive:
